@@ -7,13 +7,22 @@ use proc_macro2::TokenStream;
 use quote::{format_ident, quote};
 
 use super::{
-    common::{generate_rule_parse_function, safe_ident},
+    common::{check_ident, generate_rule_parse_function, safe_ident},
     CodegenSettings,
 };
 use crate::grammar::ExternRule;
 
 impl ExternRule {
     pub fn generate_code(&self, settings: &CodegenSettings) -> Result<(TokenStream, TokenStream)> {
+        check_ident(&self.name)?;
+        for part in self
+            .directive
+            .function
+            .iter()
+            .chain(self.directive.return_type.iter().flatten())
+        {
+            check_ident(part)?;
+        }
         let return_type = if let Some(return_type) = &self.directive.return_type {
             let part_idents = return_type.iter().map(safe_ident);
             quote!(#(#part_idents)::*)
